@@ -116,9 +116,10 @@ class Harness:
         finally:
             multiprocessing.cpu_count = orig_cpu
             multiprocessing.Pool = orig_pool
-            for p in pools:
-                p.terminate()
-                p.join()
+            # the pools belong to the code under test (it may legitimately keep one alive between calls): they are
+            # not terminated here, only counted; unreferenced pools are reclaimed by the garbage collector
+            npools = len(pools)
+            pools = [None] * npools
         text = buf.getvalue()
         after = self.snapshot()
         changed = [p for p in after if before.get(p) != after[p]]
